@@ -77,11 +77,11 @@ class SqlParseColumn(Column):
                 )
             else:
                 # select column name directly without alias
+                # (sqlparse finds no name in some malformed identifiers: fall back to their text)
+                real_name = column.get_real_name() or column.value
                 return Column(
-                    column.get_real_name(),
-                    source_columns=(
-                        (column.get_real_name(), column.get_parent_name()),
-                    ),
+                    real_name,
+                    source_columns=((real_name, column.get_parent_name()),),
                 )
         else:
             # Wildcard, Case, Function without alias (thus not recognized as an Identifier)
